@@ -183,7 +183,13 @@ def run(report, p):
             okr = len(deps) == 1 and "parent_history" in deps[0][0] and ("is not None" in deps[0][0] and deps[0][1] == "T" or deps[0][0].endswith("parent_history") and deps[0][1] == "T")
         r5.check(okr, cm, refs[0] if refs else wc, "the written child generation is not (or not only after writing) handed to its parent's reference list", construct="reference registration")
         asg = [n for n in walk_no_nested(cm.node) if isinstance(n, ast.Assign) and isinstance(n.targets[0], ast.Attribute) and n.targets[0].attr == "referenced_hash_lists"]
-        oka = len(asg) == 1 and gc.dominates(gc.node_for(asg[0]), gc.node_for(wc)) and norm(asg[0].value).endswith(f"[{norm(wc.func.value)}]")
+        val_txt = norm(asg[0].value) if len(asg) == 1 else ""
+        if len(asg) == 1 and isinstance(asg[0].value, ast.Name):
+            # a local that holds the collected references (bound once, e.g. by an inlined helper's parameter binding)
+            b_ = [n for n in walk_no_nested(cm.node) if isinstance(n, ast.Assign) and len(n.targets) == 1 and isinstance(n.targets[0], ast.Name) and n.targets[0].id == asg[0].value.id]
+            if len(b_) == 1 and gc.dominates(gc.node_for(b_[0]), gc.node_for(asg[0])):
+                val_txt = norm(b_[0].value)
+        oka = len(asg) == 1 and gc.dominates(gc.node_for(asg[0]), gc.node_for(wc)) and val_txt.endswith(f"[{norm(wc.func.value)}]")
         r5.check(oka, cm, asg[0] if asg else wc, "the list that is written does not receive the references collected for its own history", construct="references assigned before write")
     em, mdoc, cdoc, raw = documents(p)
     refs = [e for e in walk_elems(mdoc) if e.tag == "hashlistreference"]
@@ -272,7 +278,7 @@ def run(report, p):
         from .common import atomic_deps
 
         deps = sorted(set(prefix + [x for t, l in gs.control_deps(gs.node_for(ups[0])) if t.kind == "test" for x in atomic_deps(t.ast, l)]))
-        oku = len(deps) == 2 and any("root_media_hash is media_hash" in d and l == "T" for d, l in deps) and any(d.endswith("parent_history") and l == "T" for d, l in deps)
+        oku = len(deps) == 2 and any("root_media_hash is media_hash" in d and l == "T" for d, l in deps) and any((d.endswith("parent_history") and l == "T") or (d.endswith("parent_history is None") and l == "F") for d, l in deps)
         r7.check(oku, site, ups[0], f"the child's root hash is copied to the parent under {deps}; expected: this record is the list's root hash and the history has a parent", construct=f"copy-up guard {deps}")
         ko = pr.origins(ups[0].value.args[0], site)
         r7.check(all(is_call(o, "get_relative_file_path") and o[5] is not None and any(s[0] == "attr" and s[2] == "parent_history" for s in subterms(o[5])) and o[2][0][0] == "param" for o in ko), site, ups[0], "the parent's entry is not keyed by the folder's path relative to the parent history", construct="copy-up key")
